@@ -174,7 +174,7 @@ pub mod tstd {
     /// std: panics if rhs is zero, overflows for (MIN, -1)
     pub assume_specification[i32::rem_euclid](x: i32, m: i32) -> (r: i32)
         requires m != 0, !(x == i32::MIN && m == -1),
-        ensures r == (x as int) % (m as int);
+        ensures r == (x as int) % (m as int), m > 0 ==> 0 <= r < m, (0 <= x < m) ==> r == x;
     /// std: wrapping_div / wrapping_rem panic if rhs is zero; (MIN, -1) wraps to MIN / 0
     pub assume_specification[i32::wrapping_div](x: i32, y: i32) -> (r: i32)
         requires y != 0,
@@ -366,6 +366,8 @@ pub mod spec {
         &&& s.bool_vector_stack@.len() < 0x7fff_ffff
         &&& s.float_vector_stack@.len() < 0x7fff_ffff
         &&& s.int_vector_stack@.len() < 0x7fff_ffff
+        &&& forall|i: int| 0 <= i < s.code_stack@.len() ==> crate::push::item::points(#[trigger] s.code_stack@[i]) < 0x7fff_ffff
+        &&& forall|i: int| 0 <= i < s.exec_stack@.len() ==> crate::push::item::points(#[trigger] s.exec_stack@[i]) < 0x7fff_ffff
         &&& forall|i: int| 0 <= i < s.input_stack.n() ==> (#[trigger] s.input_stack.live()[i]).body.values@.len() < 0x7fff_ffff
         &&& forall|i: int| 0 <= i < s.bool_vector_stack@.len() ==> (#[trigger] s.bool_vector_stack@[i]).values@.len() < 0x7fff_ffff
         &&& forall|i: int| 0 <= i < s.int_vector_stack@.len() ==> (#[trigger] s.int_vector_stack@[i]).values@.len() < 0x7fff_ffff
